@@ -211,7 +211,7 @@ static void party_main(World &W, const Scen &sc, const Group &G, Party &P, long 
 
 // ------------------------------------------------------------------ monitor
 struct Verdicts {
-	const Scen &sc; long kcase; int fired = 0; long long evals = 0; long long subsets = 0; bool reached = false;
+	const Scen &sc; long kcase; int fired = 0; long long evals = 0; long long subsets = 0; bool reached = false, beyond_bound_stall = false;
 	Verdicts(const Scen &s, long k) : sc(s), kcase(k) {}
 	void viol(const std::string &cls, int ph, const std::string &what, J w) {
 		fired++;
@@ -240,6 +240,11 @@ static bool scan_honest_timeouts(Verdicts &V, std::vector<Party *> &P, int ph) {
 			size_t b = e; while (b > 0 && isdigit((unsigned char)line[b - 1])) b--;
 			size_t from = (size_t)atol(line.substr(b, e - b + 1).c_str());
 			if (from >= sc.n || sc.faulty(from) || from == p->i) continue;
+			if (3 * sc.t >= sc.n) {
+				// the reliable broadcast is operated beyond its own bound t < n/3 (it needs 2t+1 >= n-... readys): a party
+				// that waits on its private links stalls it.  Documented resilience limit: recorded, not judged.
+				count(std::string("stall_beyond_rbc_bound.") + PNAME[sc.proto]); V.beyond_bound_stall = true; return true;
+			}
 			long rq = 0; for (auto q : P) if (q->aiou2) rq += q->aiou2->rreq[ph];
 			V.viol("honest-timeout", ph, "an honest party ran into a time-out waiting for a message of another honest party although every link delivers within 3 s", J().kv("party", (long long)p->i).kv("waiting_for", (long long)from).kv("log_line", line).kv("r_requests_sent_in_phase", rq));
 			found = true; break;
@@ -547,10 +552,7 @@ static void run_case(long k, const Scen &sc) {
 		W.dmax = sc.dmax; W.uni.preempt_p = sc.preempt; W.bc.preempt_p = sc.preempt;
 		for (size_t i = 0; i < sc.n; i++) { Party *p = new Party; p->i = i; P.push_back(p); }
 		for (size_t i = 0; i < sc.n; i++) { Party *p = P[i]; W.sched.spawn([&W, &sc, &G, p, k]() { party_main(W, sc, G, *p, k); }, ctx.seed | 1, (uint64_t)k * 1000003ULL + sc.sseed); }
-		if (ctx.option("watch") == "1") W.sched.spawn([&W, &P, &sc]() {   // debugging aid: dump the broadcast state every 5 virtual seconds
-			for (int round = 0; round < 400; round++) {
-				bool alldone = true; for (size_t i = 0; i < sc.n; i++) if (W.sched.tasks[i]->st != Task::DONE) alldone = false;
-				if (alldone) break;
+		auto dump_rbc = [&W, &P, &sc]() {
 				for (auto p : P) { if (!p->rbc) continue; RBC *r = p->rbc;
 					fprintf(stderr, "[watch v=%ld] P%zu ID=%s deliver_buf=%zu:", g_vtime - 1600000000L, p->i, mpz_b62(r->ID).substr(0, 6).c_str(), r->deliver_buf.size());
 					for (auto &m : r->deliver_buf) fprintf(stderr, " (%s,%lu,%lu)", mpz_b62(m[0]).substr(0, 6).c_str(), mpz_get_ui(m[1]), mpz_get_ui(m[2]));
@@ -563,7 +565,15 @@ static void run_case(long k, const Scen &sc) {
 						if (mpz_cmp_ui(r->deliver_s[snd], sq) <= 0) fprintf(stderr, "      P%zu tag(%zu,%lu): send=%zu echo=%zu ready=%zu mbar=%zu dbar=%zu awaited=%zu\n", p->i, snd, sq, ns, ne, nr, r->mbar.count(tag), r->dbar.count(tag), r->awaited.count(tag));
 					}
 					for (size_t from = 0; from < sc.n; from++) if (!W.bc.q[from][p->i].empty()) fprintf(stderr, "      link %zu->%zu queued=%zu avail=%zu\n", from, p->i, W.bc.q[from][p->i].size(), W.bc.avail(from, p->i));
+					for (size_t from = 0; from < sc.n; from++) if (!W.uni.q[from][p->i].empty()) fprintf(stderr, "      private link %zu->%zu queued=%zu\n", from, p->i, W.uni.q[from][p->i].size());
 				}
+		};
+		if (ctx.option_l("probe", -1) >= 0) { W.probe = dump_rbc; W.probe_at = g_vtime + ctx.option_l("probe", 0); }   // debugging aid, no effect on the schedule
+		if (ctx.option("watch") == "1") W.sched.spawn([&W, &sc, dump_rbc]() {   // debugging aid: dump the broadcast state every 5 virtual seconds (perturbs the schedule)
+			for (int round = 0; round < 400; round++) {
+				bool alldone = true; for (size_t i = 0; i < sc.n; i++) if (W.sched.tasks[i]->st != Task::DONE) alldone = false;
+				if (alldone) break;
+				dump_rbc();
 				W.sched.wait([]() { return false; }, g_vtime + 5);
 			}
 		}, ctx.seed | 1, 0x77);
@@ -590,8 +600,9 @@ static void run_case(long k, const Scen &sc) {
 						if (R1.x != R0.x) V.viol("refresh-secret-changed", 1, "the interpolated secret changed during Refresh", J().kv("x_before", R0.x.dec()).kv("x_after", R1.x.dec()));
 						bool changed = false;
 						for (size_t i : R0.H) { if (P[i]->snap[1].y != P[i]->snap[0].y) V.viol("refresh-y-changed", 1, "the public key changed during Refresh", J().kv("party", (long long)i)); if (P[i]->snap[1].x != P[i]->snap[0].x) changed = true; }
-						if (!changed) V.viol("refresh-shares-unchanged", 1, "no honest share changed during Refresh", J().kv("honest", setstr(R0.H)));
-						else count("refresh_changed_shares");
+						if (changed) count("refresh_changed_shares");
+						else if (sc.t == 0) count("refresh_t0_zero_polynomial");   // degree-0 zero sharing is the zero polynomial: nothing can change
+						else V.viol("refresh-shares-unchanged", 1, "no honest share changed during Refresh", J().kv("honest", setstr(R0.H)));
 					}
 				}
 			}
